@@ -146,6 +146,30 @@ def to_smt2_pruned(ob, depth=2):
     return s.to_smt2()
 
 
+_SHARED_OBS = None      # obligations visible to forked workers (set by discharge before the pool is created)
+
+
+def _direct_worker(job):
+    """solve one obligation on a relevant subset of its assumptions, directly on the inherited z3 terms (forked child:
+    no SMT-LIB round trip).  Only 'unsat' is used by the caller."""
+    i, depth, timeout_ms = job
+    ob = _SHARED_OBS[i]
+    t0 = time.time()
+    try:
+        asm = relevant_assumptions(ob, depth)
+        if asm is None:
+            return i, 'skip', 0.0
+        s = z3.Solver()
+        s.set('timeout', int(timeout_ms))
+        for a in asm:
+            s.add(a)
+        s.add(z3.Not(ob.goal))
+        r = str(s.check())
+    except Exception as e:   # noqa
+        r = 'unknown'
+    return i, r, time.time() - t0
+
+
 def _pruned_worker(job):
     name, smt2, timeout_ms = job
     r, t, model, reason = _z3_try(smt2, timeout_ms, False)
@@ -308,23 +332,59 @@ def discharge(obs, timeout_s=10, use_cvc5=True, tactic=None, nproc=None):
             verdicts[i].status, verdicts[i].backend = 'unsat', 'simplifier'
             continue
         jobs.append(i)
-    # early attempts on small, relevant subsets of the assumptions (cheap to serialise and to solve)
     n_workers = nproc or NPROC
     timing = os.environ.get('VERIF_TIMING')
     t_start = time.time()
+    # obligations with literally the same assumptions (straight-line arithmetic under one path condition) are first tried
+    # as one query  assumptions => goal_1 and ... and goal_n ; unsat discharges all of them, anything else falls
+    # through to the per-obligation route, so a failure is still reported by name
+    groups = {}
+    for i in jobs:
+        o = obs[i]
+        if o.kind == 'cover':
+            continue
+        key = (len(o.assumptions), hash(tuple(a.get_id() for a in o.assumptions)))
+        groups.setdefault(key, []).append(i)
+    batch = []
+    for key, members in groups.items():
+        if len(members) >= 8:
+            for c in range(0, len(members), 400):
+                chunk = members[c:c + 400]
+                sol = z3.Solver()
+                for a in obs[chunk[0]].assumptions:
+                    sol.add(a)
+                sol.add(z3.Not(z3.And(*[obs[i].goal for i in chunk])))
+                batch.append((','.join(map(str, chunk)), sol.to_smt2(), max(5000, timeout_s * 1000)))
+    if batch:
+        if len(batch) > 1 and n_workers > 1:
+            with mp.get_context('fork').Pool(min(n_workers, len(batch))) as pool:
+                br = pool.map(_pruned_worker, batch, chunksize=1)
+        else:
+            br = [_pruned_worker(w) for w in batch]
+        done = set()
+        for nm, r, t in br:
+            ids = [int(x) for x in nm.split(',')]
+            if r == 'unsat':
+                for i in ids:
+                    v = verdicts[i]
+                    v.status, v.backend, v.time_s = 'unsat', 'z3(batch of %d with identical assumptions)' % len(ids), t / len(ids)
+                    done.add(i)
+        jobs = [i for i in jobs if i not in done]
+        if timing:
+            print('[discharge] batches: %d, discharged %d, left %d, %.1fs' % (len(batch), len(done), len(jobs), time.time() - t_start), flush=True)
+    # early attempts on small, relevant subsets of the assumptions (cheap to serialise and to solve)
+    global _SHARED_OBS
+    _SHARED_OBS = obs
     for depth in (1, 3):
-        todo = []
-        for i in jobs:
-            pr = to_smt2_pruned(obs[i], depth) if obs[i].kind != 'cover' else None
-            if pr is not None:
-                todo.append((str(i), pr, max(1500, timeout_s * 150)))
+        todo = [(i, depth, max(1500, timeout_s * 150)) for i in jobs if obs[i].kind != 'cover' and len(obs[i].assumptions) >= 40]
         if not todo:
             continue
         if len(todo) > 1 and n_workers > 1:
             with mp.get_context('fork').Pool(min(n_workers, len(todo))) as pool:
-                early = pool.map(_pruned_worker, todo, chunksize=max(1, len(todo) // (8 * n_workers)))
+                early = pool.map(_direct_worker, todo, chunksize=max(1, len(todo) // (8 * n_workers)))
         else:
-            early = [_pruned_worker(w) for w in todo]
+            early = [_direct_worker(w) for w in todo]
+        early = [(str(i), r, t) for (i, r, t) in early]
         done = set()
         for nm, r, t in early:
             v = verdicts[int(nm)]
